@@ -36,7 +36,7 @@ Vals == CASE Size = "s" -> {StrVal("v1")}
           [] Size = "w" -> {StrVal("v1"), StrVal("1"), IntVal(1), StrVal("1.5"), TypedVal("float", 3, <<>>), TypedVal("float", 2, <<>>), TypedVal("bool", 0, <<>>),
                             TypedVal("bool", 1, <<>>), StrVal("yes"), NullVal, TypedVal("list", 0, <<IntVal(1), StrVal("v2")>>), TypedVal("list", 0, <<>>)}
           \* "i": strings that look like IRIs (with backslashes / control characters in their concrete form)
-          [] Size = "i" -> {StrVal("v1"), StrVal("iri1"), StrVal("iri2"), StrVal("iri3"), StrVal("iri4")}
+          [] Size = "i" -> {StrVal("v1"), StrVal("iri1"), StrVal("iri2"), StrVal("iri3"), StrVal("iri4"), StrVal("ctl1"), StrVal("ctl2")}
           [] OTHER -> {StrVal("v1"), IntVal(1)}
 
 \* references to live items, by handle and (when they have one) by id
@@ -70,6 +70,11 @@ SubPairs ==
         A == AnnRefs
     IN {<<TB("Text", r, NoRef, Off("B", 1, "B", 2)), TB("Text", r, NoRef, Off("B", 0, "B", 1))>> : r \in R}
        \cup {<<TB("Text", r, NoRef, Off("B", 0, "B", 1)), TB("Res", r, NoRef, NoOffset)>> : r \in R}
+       \* three text parts with mixed alignment, in and out of textual order (candidates for the internal ranged selector)
+       \cup UNION {{<<TB("Text", r, NoRef, Off("B", 0, "B", 1)), TB("Text", r, NoRef, Off("B", 1, "B", 2)), TB("Text", r, NoRef, Off("E", -1, "E", 0))>>,
+                    <<TB("Text", r, NoRef, Off("E", -1, "E", 0)), TB("Text", r, NoRef, Off("B", 0, "B", 1)), TB("Text", r, NoRef, Off("B", 1, "B", 2))>>,
+                    <<TB("Text", r, NoRef, Off("B", 1, "B", 2)), TB("Text", r, NoRef, Off("E", -1, "E", 0)), TB("Text", r, NoRef, Off("B", 0, "B", 1))>>,
+                    <<TB("Text", r, NoRef, Off("B", 0, "B", 1)), TB("Text", r, NoRef, Off("B", 1, "E", -1)), TB("Text", r, NoRef, Off("B", 2, "B", 3))>>} : r \in R}
        \cup {<<TB("Ann", x, NoRef, NoOffset), TB("Ann", y, NoRef, NoOffset)>> : x \in A, y \in A}
        \cup {<<TB("Ann", ByH(x), NoRef, Off("B", 0, "E", 0)), TB("Ann", ByH(y), NoRef, Off("B", 0, "E", 0))>> :
                x \in {z \in LiveAnns(st) : HasSingleText(st.anns[z])}, y \in {z \in LiveAnns(st) : HasSingleText(st.anns[z])}}
@@ -525,7 +530,7 @@ QueriesOf ==
     \cup {Q("SELECT", "ANNOTATION", "x", <<c1, c2>>, <<>>) : c1 \in QAnnCore, c2 \in QAnnCore}
     \cup {Q("SELECT", "DATA", "x", <<c1, c2>>, <<>>) : c1 \in {c \in QDataCs : c.k # "KeyVal"}, c2 \in {c \in QDataCs : c.k # "KeyVal"}}
     \cup {Q("SELECT", "ANNOTATION", "x", <<CUnion(<<c1, c2>>)>>, <<>>) : c1 \in QAnnCore, c2 \in QAnnCore}
-    \cup {Q("SELECT", "ANNOTATION", "x", <<c, CLimit(l[1], l[2])>>, <<>>) : c \in {d \in QAnnCore : d.k \in {"Res", "Key"}}, l \in {<<0, 1>>, <<0, 2>>, <<1, 0>>, <<-1, 0>>, <<0, -1>>, <<1, 2>>, <<-2, -1>>}}
+    \cup {Q("SELECT", "ANNOTATION", "x", <<c, CLimit(l[1], l[2])>>, <<>>) : c \in {d \in QAnnCore : d.k \in {"Res", "Key"}}, l \in {<<0, 1>>, <<0, 2>>, <<1, 0>>, <<-1, 0>>, <<0, -1>>, <<1, 2>>, <<-2, -1>>, <<1, -1>>, <<2, -1>>, <<1, -2>>, <<-3, 2>>, <<-1, 5>>}}
     \cup {Q("SELECT", "ANNOTATION", "x", <<c>>, <<sq>>) : c \in {d \in QAnnCore : d.k \in {"Res", "Key", "Set"}}, sq \in QSubs \cup {Optional(z) : z \in QSubs}}
 \* TEXT and RESOURCE results.  (Asked only of stores in which every known text selection still has an annotation: the
 \* documentation does not say whether selections orphaned by removals count as results.)
